@@ -49,6 +49,16 @@ MUTANTS = [
     ("C06", "haversine-radians", "typhon/geographical.py", "            distances *= earth_radius\n", "            pass\n"),
     ("C06", "haversine-radius", "typhon/geographical.py", "            r *= 1000. / earth_radius", "            r *= 1. / earth_radius"),
     ("C06", "nodist-unshuffled", "typhon/geographical.py", "            if pairs.size and self.shuffler is not None:", "            if False:"),
+    ("C04", "interval-le", "typhon/collocations/collocator.py", "passed_time_check = intervals < max_interval", "passed_time_check = intervals <= max_interval"),
+    ("C04", "window-one-sided", "typhon/collocations/collocator.py", "            & (primary.time.values <= np.datetime64(common_end))", "            & (primary.time.values <= np.datetime64(datetime.max))"),
+    ("C04", "nan-translation-dropped", "typhon/collocations/collocator.py", "            self._to_original(\n                pairs[:, passed_temporal_check], original_indices),", "            pairs[:, passed_temporal_check].astype(int),"),
+    ("C04", "row-swap-omitted", "typhon/collocations/collocator.py", "        if not index_with_primary:\n            # The primary indices should be in the first row, the secondary\n            # indices in the second:\n            pairs[[0, 1]] = pairs[[1, 0]]", "        if False:\n            pairs[[0, 1]] = pairs[[1, 0]]"),
+    ("C04", "bin-offset-wrong-dataset", "typhon/collocations/collocator.py", "offset2 = secondary.index.searchsorted(chunk2_start)", "offset2 = primary.index.searchsorted(chunk2_start)"),
+    ("C04", "bin-swap-omitted", "typhon/collocations/collocator.py", "        if swapped_datasets:\n            # Swap the rows of the results\n            pairs[[0, 1]] = pairs[[1, 0]]", "        if False:\n            pairs[[0, 1]] = pairs[[1, 0]]"),
+    ("C04", "bin-secondary-window", "typhon/collocations/collocator.py", "chunk2_end = chunk1.index.max() + max_interval", "chunk2_end = chunk1.index.max()"),
+    ("C04", "any-empty", "typhon/collocations/collocator.py", "        if not original_pairs.size:", "        if not original_pairs.any():"),
+    ("C04", "allclose-cache", "typhon/collocations/collocator.py", "            return np.array_equal(lat, self.index.lat) \\\n                   & np.array_equal(lon, self.index.lon)", "            return np.allclose(lat, self.index.lat) \\\n                   & np.allclose(lon, self.index.lon)"),
+    ("C04", "common-end-minus", "typhon/collocations/collocator.py", "pd.Timestamp(secondary.time.values.max().item(0)).tz_localize(None) + max_interval", "pd.Timestamp(secondary.time.values.max().item(0)).tz_localize(None) - max_interval"),
 ]
 
 
